@@ -12,14 +12,15 @@ package c10
 
 import (
 	"bytes"
-	"crypto/tls"
 	"context"
+	"crypto/tls"
 	"fmt"
 	"hash"
 	"hash/fnv"
 	"io"
 	"os"
 	"path/filepath"
+	"reflect"
 	"regexp"
 	"runtime"
 	"sort"
@@ -218,7 +219,7 @@ var menus = map[string][]string{
 	"writer":      {"write1", "write3", "writeCancel", "stats", "stats", "envAddBroker", "envDropBroker", "envMoveLeader", "close"},
 	"reader":      {"fetch", "fetch", "read", "setOffset", "setOffsetAt", "offset", "lag", "readLag", "stats", "config", "close"},
 	"groupreader": {"fetch", "fetch", "commit", "commit", "read", "offset", "lag", "stats", "config", "envRebalance", "envRebalance", "close", "close"},
-	"conn": {"setDeadline", "setReadDeadline", "setWriteDeadline", "offset", "seekStart", "seekEnd", "seekAbs", "seekCur", "firstOffset", "lastOffset", "readOffsets",
+	"conn": {"setDeadline", "setReadDeadline", "setWriteDeadline", "offset", "seekStart", "seekEnd", "seekAbs", "seekCur", "seekCurNoCheck", "seekAbsNoCheck", "firstOffset", "lastOffset", "readOffsets",
 		"write", "writeCompressed", "readBatch", "readMessage", "read", "partitions", "brokers", "controller", "apiVersions", "broker", "addrs", "createTopics", "deleteTopics", "setRequiredAcks", "close"},
 	"batch":    {"read", "read", "readShort", "readMessage", "readMessage", "offset", "hwm", "throttle", "partition", "err", "close"},
 	"client":   {"metadata", "listOffsets", "produce", "fetch", "createTopics", "offsetFetch", "offsetCommit", "listGroups", "describeGroups", "apiVersions", "consumerOffsets", "closeIdle", "envAddBroker", "envDropBroker", "envMoveLeader"},
@@ -318,8 +319,11 @@ func setup(tb ev.TB, p Program) *env {
 		default:
 			e.cod = &czstd.Codec{}
 		}
+		// the blob is made with a codec value of its own: the one the threads share has not been used before they start
+		mk := reflect.New(reflect.TypeOf(e.cod).Elem())
+		mk.Elem().Set(reflect.ValueOf(e.cod).Elem())
 		var buf bytes.Buffer
-		w := e.cod.NewWriter(&buf)
+		w := mk.Interface().(compress.Codec).NewWriter(&buf)
 		w.Write(payload(3000))
 		w.Close()
 		e.blob = buf.Bytes()
@@ -571,6 +575,10 @@ func (e *env) exec(thread int, op Op) {
 			c.Seek(int64(op.Arg%(e.p.Records+1)), kafka.SeekAbsolute)
 		case "seekCur":
 			c.Seek(int64(op.Arg%2), kafka.SeekCurrent)
+		case "seekCurNoCheck":
+			c.Seek(int64(op.Arg%2), kafka.SeekCurrent|kafka.SeekDontCheck)
+		case "seekAbsNoCheck":
+			c.Seek(int64(op.Arg%(e.p.Records+1)), kafka.SeekAbsolute|kafka.SeekDontCheck)
 		case "firstOffset":
 			c.ReadFirstOffset()
 		case "lastOffset":
